@@ -65,6 +65,9 @@ theorem disk_cleanedAbs_spec (fs : Fs) (path : String) (d : List String) (f : St
     PhysDir fs d ∧ (f ≠ "" → ∃ x, lookup fs (d ++ [f]) = some (.file x)) := by
   unfold cleanedAbs at h
   split at h
+  · simp at h
+  rename_i hclimb
+  split at h
   · rename_i q hr
     have hphys := resolve_phys fs _ _ _ q (physDir_nil fs) hr
     split at h
